@@ -62,7 +62,7 @@ fn alphabet(tier: Tier) -> Vec<&'static str> {
         v.extend([
             "X SET kc y", "X GETSET ka n", "X SETNX kb s", "X STRLEN ka", "X UNLINK ka kc", "X PERSIST ka", "X PEXPIRE kc 1500", "ADV 1500", "X PTTL kc",
             "X LMOVE ka kb RIGHT LEFT", "X RENAME kc ka", "X RENAMENX ka kc", "X SORT kc", "X HSET ka f v", "X ZRANGE kc 0 -1 WITHSCORES", "X SCARD kc",
-            "X FLUSHALL", "PG kb", "PS kb p", "BG kb ka kc", "BS kb 1", "X WATCH ka", "X SCAN 0 COUNT 1",
+            "X FLUSHALL", "PG kb", "PS kb p", "BG kb ka kc", "BS kb 1", "X WATCH ka", "X SCAN 0 COUNT 1", "X SCAN 0 COUNT 3", "X SCAN 0 COUNT 10",
         ]);
     }
     v
@@ -291,10 +291,19 @@ fn run_inner(n: usize, keys: &[String], hist: &[&str], op: &str, refresh: bool) 
             let ctx = || format!("shards={n} keys={:?} after [{}]", keys, hist.join("; "));
             if o1 != on {
                 let kind = if on.starts_with("HANG") { "hang" } else { "reply" };
+                // a single SCAN call: the listed finding (the sharded SCAN ignores the cursor) concerns calls whose COUNT is
+                // below the number of keys; a call whose COUNT covers the whole keyspace must return everything on any shard count
+                let scan_tag = if a[0].eq_ignore_ascii_case(b"X") && a.get(1).map(|x| x.eq_ignore_ascii_case(b"SCAN")).unwrap_or(false) {
+                    let count: usize = a.iter().position(|t| t.eq_ignore_ascii_case(b"COUNT")).and_then(|i| a.get(i + 1)).and_then(|c| String::from_utf8_lossy(c).parse().ok()).unwrap_or(10);
+                    let nkeys = one.dump().await.len();
+                    if count >= nkeys { " count-covers-keyspace" } else { "" }
+                } else {
+                    ""
+                };
                 return Outcome {
                     fp: None,
                     violation: Some((
-                        format!("{kind} {}", op_shape(op)),
+                        format!("{kind} {}{scan_tag}", op_shape(op)),
                         format!("{}: `{}` replied {} with {} shards but {} with 1 shard", ctx(), op, on, n, o1),
                     )),
                 };
